@@ -311,4 +311,5 @@ func runC19(r *Run, replay *Case) {
 	for i := 0; i < n; i++ {
 		r.Add(c19Eval("gen", c19Generate(g)))
 	}
+	c19ModelStreams(r)
 }
